@@ -1,4 +1,5 @@
 import Mltwist.Spec.IntervalSet
+import Mltwist.Lemmas.IntervalBasic
 /-
 Helper lemmas for C17.  (Proofs to be supplied.)
 -/
@@ -6,18 +7,32 @@ namespace Mltwist.Lemmas.Interval
 open Mltwist.Interval
 
 theorem newMap_normal (l : List Intv) (h : ∀ i ∈ l, i.1 < i.2) : Normal (newMap l) := by
-  sorry
+  unfold newMap
+  rw [normal_reverse]
+  exact (foldl_addInterval_spec (sortByBegin l) [] rnormal_nil (fun _ _ => headLe_nil _)
+    (fun i hi => h i ((mem_sortByBegin l i).1 hi)) (sortByBegin_sorted l)).1
 
 theorem newMap_mem (l : List Intv) (h : ∀ i ∈ l, i.1 < i.2) (x : Int) :
     Mem x (newMap l) ↔ Mem x l := by
-  sorry
+  unfold newMap
+  rw [mem_reverse]
+  rw [(foldl_addInterval_spec (sortByBegin l) [] rnormal_nil (fun _ _ => headLe_nil _)
+    (fun i hi => h i ((mem_sortByBegin l i).1 hi)) (sortByBegin_sorted l)).2 x]
+  rw [mem_congr x (mem_sortByBegin l)]
+  simp [mem_nil]
 
 theorem union_normal (a b : List Intv) (ha : Normal a) (hb : Normal b) : Normal (mapUnion a b) := by
-  sorry
+  unfold mapUnion
+  rw [normal_reverse]
+  exact (unionMerge_spec a b [] ha hb rnormal_nil (fun _ _ => headLe_nil _)
+    (fun _ _ => headLe_nil _)).1
 
 theorem union_mem (a b : List Intv) (ha : Normal a) (hb : Normal b) (x : Int) :
     Mem x (mapUnion a b) ↔ Mem x a ∨ Mem x b := by
-  sorry
+  unfold mapUnion
+  rw [mem_reverse, (unionMerge_spec a b [] ha hb rnormal_nil (fun _ _ => headLe_nil _)
+    (fun _ _ => headLe_nil _)).2 x]
+  simp [mem_nil]
 
 theorem complement_normal (a b : List Intv) (ha : Normal a) (hb : Normal b) :
     Normal (mapComplement a b) := by
